@@ -88,6 +88,58 @@ def table(repo, build_dir, variant="asan"):
             rows.append({"file": os.path.basename(c["file"]), "fn": c["func"] or "?", "callee": c["callee"], "line": c["line"],
                          "used": bool(c["used"]), "how": c["how"], "tests": c.get("tests", []), "fails": stats["failure_values"][c["callee"]]})
     rows.sort(key=lambda r: (r["file"], r["line"], r["callee"]))
+    # ---- wave 5: the C files of src/ that the default configuration does not compile (other gateways, optional and
+    #      unlisted modules).  Same rule; enclosing functions named test_* (self-tests embedded in the file) are counted, not judged
+    urecs, unparsed = cast.facts_unbuilt(repo, build_dir, variant)
+    ucalls, useen, ufdefs = [], set(), {}
+    for r in urecs:
+        for n, f in r["functions"].items():
+            if f["has_body"] and (f["file"] or "").startswith("src/") and n not in fdefs:
+                ufdefs.setdefault(n, f)
+        for c in r["calls"]:
+            if not (c["file"] or "").startswith("src/") or not c["callee"] or c["file"] != r["src"]:
+                continue
+            k = (c["file"], c["func"], c["line"], c["callee"])
+            if k not in useen:
+                useen.add(k); ucalls.append(c)
+    for n, f in ufdefs.items():
+        fdefs.setdefault(n, f)                                   # failure values of the extra functions
+    EU = set(E)
+    changed = True
+    while changed:
+        changed = False
+        for c in ucalls:
+            g = c["func"]
+            if c["callee"] in EU and g not in EU and g in ufdefs and ufdefs[g]["ret"].strip() == "int":
+                EU.add(g); changed = True
+    urows, utests = [], 0
+    for c in ucalls:
+        if c["callee"] in EU:
+            if (c["func"] or "").startswith("test_") or c["func"] == "main":
+                utests += 1
+                continue
+            urows.append({"file": os.path.basename(c["file"]), "fn": c["func"] or "?", "callee": c["callee"], "line": c["line"],
+                          "used": bool(c["used"]), "how": c["how"], "tests": c.get("tests", []), "fails": fails_of(c["callee"])})
+    urows.sort(key=lambda r: (r["file"], r["line"], r["callee"]))
+    # (a) optional: the file appears in some source list of CMakeLists.txt (compiled under some option / platform): judged
+    # (b) unlisted: no cmake list mentions it, it cannot be part of the library in any configuration: observed only
+    try:
+        cm = open(os.path.join(repo, "CMakeLists.txt")).read()
+    except OSError:
+        cm = ""
+    import re as _re
+    listed = lambda rel: bool(_re.search(r"(?<![\w/])" + _re.escape(rel) + r"\b", cm))
+    relof = {os.path.basename(r["src"]): r["src"] for r in urecs}
+    for r in urows:
+        r["cls"] = "optional" if listed(relof.get(r["file"], "src/" + r["file"])) else "unlisted"
+    stats["optional_rows"] = [r for r in urows if r["cls"] == "optional"]
+    stats["unlisted_rows"] = [r for r in urows if r["cls"] == "unlisted"]
+    stats["unbuilt_classes"] = {"optional": sorted(f for f in [x["src"] for x in urecs] + list(unparsed) if listed(f)),
+                                "unlisted": sorted(f for f in [x["src"] for x in urecs] + list(unparsed) if not listed(f))}
+    stats["unbuilt_rows"] = urows
+    stats["unbuilt_unparsed"] = unparsed
+    stats["unbuilt_test_sites"] = utests
+    stats["unbuilt_files"] = sorted(r["src"] for r in urecs)
     # void functions that call into E cannot report the failure at all: listed as unused sites already
     # (their own call of the E member is a row); additionally record them for the evidence
     stats["E"] = sorted(E)
@@ -133,7 +185,7 @@ def py_site_ok(r):
     return bool(r["used"]) and all(any(py_distinguishes(t, v) for t in r["tests"]) for v in r["fails"])
 
 
-def emit(rows, path=None):
+def emit(rows, path=None, optional=None, unlisted=None):
     out = ["(* GENERATED by tools/rand_sites.py from the current source tree — do not edit. *)",
            "From Coq Require Import String List NArith ZArith.", "From GmVerif Require Import Sys.Tables.",
            "Import ListNotations.", "Open Scope string_scope.", "",
@@ -145,6 +197,15 @@ def emit(rows, path=None):
                      "; ".join("(%d)%%Z" % v for v in r["fails"])))
     out.append(";\n".join(items))
     out.append("].")
+    for name, lst, what in (("rand_sites_optional", optional, "call sites in C files that some cmake option / platform compiles but the default configuration does not"),
+                            ("rand_sites_unlisted", unlisted, "call sites in C files no cmake source list mentions (observed, not judged)")):
+        if lst is not None:
+            out.append("")
+            out.append("(* %s *)" % what)
+            out.append("Definition %s : list rand_site := [" % name)
+            out.append(";\n".join("  mkSite %s %s %s %d%%N %s %s [%s] [%s]" % (cast.coq_str(r["file"]), cast.coq_str(r["fn"]), cast.coq_str(r["callee"]), r["line"],
+                       cast.coq_bool(r["used"]), cast.coq_str(r["how"]), "; ".join(coq_test(t) for t in r["tests"]), "; ".join("(%d)%%Z" % v for v in r["fails"])) for r in lst))
+            out.append("].")
     text = "\n".join(out) + "\n"
     if path:
         if not (os.path.exists(path) and open(path).read() == text):
@@ -156,7 +217,10 @@ if __name__ == "__main__":
     repo = os.environ.get("VERIF_REPO", "/repo")
     build = os.environ.get("VERIF_BUILD", "/verif/build")
     rows, st = table(repo, build)
-    emit(rows, os.path.join(os.path.dirname(os.path.dirname(os.path.abspath(__file__))), "coq", "Gen", "RandSitesTable.v"))
+    emit(rows, os.path.join(os.path.dirname(os.path.dirname(os.path.abspath(__file__))), "coq", "Gen", "RandSitesTable.v"), st["optional_rows"], st["unlisted_rows"])
+    print("unbuilt:", len(st["unbuilt_rows"]), "rows,", st["unbuilt_test_sites"], "test sites, unparsed", sorted(st["unbuilt_unparsed"]))
+    for r in st["unbuilt_rows"]:
+        print("  %s %s:%d %s -> %s ok=%s" % (r["cls"], r["file"], r["line"], r["fn"], r["callee"], py_site_ok(r)))
     print({k: st[k] for k in ("files", "cached", "parsed")}, len(st["E"]), "functions in E;", len(rows), "sites;", sum(1 for r in rows if not py_site_ok(r)), "not ok")
     print({f: v for f, v in st["failure_values"].items() if v != [-1]})
     print("void callers:", st["void_callers"])
